@@ -467,6 +467,10 @@ def r2_r3_tokenizers(rep, src):
             if isinstance(e, ast.Subscript) and norm(e.value) == mv and isinstance(e.slice, ast.Constant):
                 k = e.slice.value
                 return gindex.get(k) if isinstance(k, str) else k
+            if isinstance(e, ast.Subscript) and norm(e.value) == '%s.groupdict()' % mv and isinstance(e.slice, ast.Constant) and isinstance(e.slice.value, str):
+                return gindex.get(e.slice.value)
+            if isinstance(e, ast.Call) and norm(e.func) == '%s.groupdict().get' % mv and len(e.args) == 1 and isinstance(e.args[0], ast.Constant):
+                return gindex.get(e.args[0].value)
             return None
         ps = P.Enumerator(P.Folder()).run(loops[0].body, [P.Path()])
         problems = []
